@@ -149,6 +149,33 @@ def r2(db, rep):
                                                  place_fields((root[2].get("o") or [None, [0]])[1]))):
                     ext = True
             ok = is_arr and (DENSE[c] == "read" or ext or name == "Array::shift")
+            # a write through the shortcut stores into `object`: when the operation has a separate receiver (`super[i] = v`),
+            # the shortcut is only valid if the receiver is that same object
+            recv = f.var_local("receiver") if hasattr(f, "var_local") else None
+            if DENSE[c] == "write" and recv is not None and name not in FRESH_ARRAYS:
+                same = False
+                for sb in f.dominators().get(b, ()):
+                    bs = bool_switch(f, sb)
+                    if not bs:
+                        continue
+                    pol, root = bool_origin(f, bs[0])
+                    if root[0] == "call" and cn(root[2]).split("::")[-1] in ("equals", "ptr_eq", "is_some_and"):
+                        good = bs[2] if pol else bs[1]
+                        if b in f.reach_from([good], avoid={sb}) and b not in f.reach_from([bs[1] if pol else bs[2]], avoid={sb}):
+                            # the test involves the receiver (directly or through the closure given to is_some_and)
+                            from facts import provenance
+                            involved = set()
+                            for a in root[2]["args"]:
+                                al = op_local(a)
+                                if al is not None:
+                                    involved |= provenance(f, al, extra=("as_object", "clone", "as_ref"))
+                            if recv in involved:
+                                same = True
+                rep.ob("R2", f"{name}:{c.split('::')[-1]}:{k}:receiver-is-object", same,
+                       f"{name}: the dense write shortcut at {f.loc(b)} stores into the object although the operation has a "
+                       f"separate receiver that is not tested to be that object: `super[0] = 9` in a method whose prototype is "
+                       f"an array overwrites the prototype's element instead of defining an own property on `this`",
+                       loc=f.loc(b))
             rep.ob("R2", f"{name}:{c.split('::')[-1]}:{k}", ok,
                    f"{name}: {c} at {f.loc(b)} is not guarded by is_array(){'' if DENSE[c] == 'read' else ' and the extensibility test'} — "
                    f"exotic objects (typed arrays, arguments, proxies) or frozen arrays would take the dense shortcut",
